@@ -684,6 +684,7 @@ class Scenario:
         self.ctx = ctx
         self.rng = ctx.rng
         self.dev = make_device(ctx.rng, S, v2=v2, n=n, all_types=all_types)
+        _hook_device(self)               # before the session connects: remembers the device's replies to PARAM requests
         self.ids = {}
         self.real = Real(self.dev, self.ids, routing)
         self.lines = []
@@ -880,29 +881,13 @@ def correspond(ctx):
     ctx.count('variant:routing=%d,snapshot=%d' % (routing, 1 if snap else 0))
     thorough = ctx.tier == 'thorough'
     scenarios = []
-    nsc = 60 if thorough else 14
+    nsc = 400 if thorough else 70
     for k in range(nsc):
         v2 = ctx.rng.random() < 0.85
-        sc = Scenario.__new__(Scenario)
-        # the device hook must be in place before the session connects
-        sc_dev_holder = {}
-        _orig_make = make_device
-
-        def mk(rng, S_, v2=True, n=None, all_types=False, _h=sc_dev_holder):
-            d = _orig_make(rng, S_, v2=v2, n=n, all_types=all_types)
-            _h['d'] = d
-            return d
-        globals()['make_device'] = mk
-        try:
-            sc.dev = None
-            sc._last_replies = []
-            Scenario.__init__(sc, ctx, routing, snap, v2=v2, all_types=(k % 5 == 0), n=10 if k % 5 == 0 else None)
-        finally:
-            globals()['make_device'] = _orig_make
-        _hook_device(sc)
+        sc = Scenario(ctx, routing, snap, v2=v2, all_types=(k % 5 == 0), n=10 if k % 5 == 0 else None)
         if ctx.rng.random() < 0.7:
             drain(sc)                       # fetch all values: fully connected
-        run_ops(sc, 120 if thorough else 60)
+        run_ops(sc, 150 if thorough else 80)
         drain(sc)
         sc.emit('state', None)
         scenarios.append(sc)
